@@ -108,3 +108,8 @@ pub assume_specification<'a, K: Ord, V: Default, A: core::alloc::Allocator + Clo
     ensures entry_old(e).contains_key(entry_key(e)) ==> *r == entry_old(e)[entry_key(e)],
             !entry_old(e).contains_key(entry_key(e)) ==> is_default(*r),
             entry_fin(e) == entry_old(e).insert(entry_key(e), *final(r));
+// Vec::dedup removes consecutive repeated elements (so that an edit using it stays inside the verifier's reach)
+pub open spec fn dedup_spec<T>(s: Seq<T>) -> Seq<T> decreases s.len() {
+    if s.len() <= 1 { s } else if s[s.len() - 1] == s[s.len() - 2] { dedup_spec(s.drop_last()) } else { dedup_spec(s.drop_last()).push(s.last()) } }
+pub assume_specification<T: PartialEq, A: core::alloc::Allocator> [Vec::<T, A>::dedup] (v: &mut Vec<T, A>)
+    ensures final(v)@ == dedup_spec(old(v)@);
